@@ -39,7 +39,7 @@ def run(tier, replay=None):
 
     fs = [outer.submit(lambda: contlib.family_consume(ctx, j, quick, random.Random(seed + 1), pool)[0]),
           outer.submit(lambda: contlib.family_concat_xz(ctx, j, quick, random.Random(seed + 2), pool)[0]),
-          outer.submit(xz_all),
+          outer.submit(xz_all if not quick else (lambda: [])),
           outer.submit(lambda: contlib.family_lzma2(ctx, j, quick, random.Random(seed + 3), pool)[0]),
           outer.submit(lambda: contlib.family_lzma(ctx, j, quick, random.Random(seed + 4), pool)[0])]
     scns = [s for f in fs for s in f.result()]
